@@ -293,6 +293,27 @@ func HasType(t string, v *Value) bool {
 	return false
 }
 
+// BoolString reports whether v is the STRING "true" or "false".  The
+// documentation calls s:bool "boolean values (true or false)" and s:is-true
+// "the boolean true symbol", but the repository's own test deftype-bool
+// asserts that (s:validate <s:bool (s:is-true)> "true") passes, so the intent
+// is ambiguous: these two strings are NOT JUDGED against s:bool, and "true"
+// against s:is-true / "false" against s:is-false likewise (coordinator
+// decision; everything else, e.g. any other string, stays judged).
+func BoolString(v *Value) bool { return v.K == VStr && (v.S == "true" || v.S == "false") }
+
+// TypeOut is the documented outcome of the bare type check: accept,
+// wrong-type, or both for the not-judged bool strings.
+func TypeOut(t string, v *Value) Out {
+	if t == "bool" && BoolString(v) {
+		return Accept | WrongType
+	}
+	if HasType(t, v) {
+		return Accept
+	}
+	return WrongType
+}
+
 // conj: every member must hold.  Which failing member is reported first is not
 // documented, so the reject kinds are the union.
 func conj(outs []Out) Out {
@@ -366,10 +387,14 @@ func EvalSchema(s *Schema, v *Value) Out {
 }
 
 func evalTyped(t string, cons []*Cons, v *Value) Out {
-	if !HasType(t, v) {
+	switch TypeOut(t, v) {
+	case WrongType:
 		return WrongType // README: "If the value does not have the required type ... wrong-type"
+	case Accept:
+		return evalConsList(cons, v)
 	}
-	return evalConsList(cons, v)
+	return WrongType | evalConsList(cons, v) // type membership not judged
+
 }
 
 func evalConsList(cons []*Cons, v *Value) Out {
@@ -384,10 +409,7 @@ func evalConsList(cons []*Cons, v *Value) Out {
 func EvalRef(r *Ref, v *Value) Out {
 	switch r.Kind {
 	case RType:
-		if HasType(r.Type, v) {
-			return Accept
-		}
-		return WrongType
+		return TypeOut(r.Type, v)
 	case RValidator:
 		return EvalSchema(r.V, v)
 	}
@@ -593,8 +615,14 @@ func EvalCons(c *Cons, v *Value) Out {
 		// not spelled out; judge only where both readings agree.
 		return boolOut(c.Pat.Search(v.S)) | boolOut(c.Pat.Full(v.S))
 	case "is-true":
+		if v.K == VStr && v.S == "true" {
+			return Accept | FailedConstraint // not judged, see BoolString
+		}
 		return boolOut(v.K == VSym && v.S == "true")
 	case "is-false":
+		if v.K == VStr && v.S == "false" {
+			return Accept | FailedConstraint // not judged, see BoolString
+		}
 		return boolOut(v.K == VSym && v.S == "false")
 	case "is-truthy":
 		switch Truthy(v) {
